@@ -1,5 +1,5 @@
 """C33 helper: run the REAL `contains_operator` (crates/erg_compiler/lib/core/_erg_contains_operator.py of the tree under test)
-on (pattern, value) rows. stdin: JSON lines {"id", "pat", "val"} with pat/val in a small tagged form; stdout: id \\t true|false|crash(<exc>)
+on (pattern, value) rows. stdin: JSON lines {"id", "pat", "val"} with pat/val in a small tagged form; stdout: id \\t true|false|crash:<exc>
 usage: python3.11 c33_contains.py <lib/core dir>"""
 import json
 import sys
@@ -40,5 +40,5 @@ for line in sys.stdin:
     try:
         out = "true" if contains_operator(pat(r["pat"]), lit(r["val"])) else "false"
     except Exception as e:  # a crash is an outcome
-        out = "crash(%s)" % type(e).__name__
+        out = "crash:%s" % type(e).__name__
     print("%s\t%s" % (r["id"], out))
